@@ -19,9 +19,10 @@ func init() {
 			"(history) both state pre-handlers append their input to state.Messages (store back of an append rooted in the same field); the model is given a fresh copy when a message modifier is configured; " +
 			"(same-runnable) Generate -> runnable.Invoke and Stream -> runnable.Stream on the same field with the same options; " +
 			"(capture) no escaping literal in flow/agent/** writes a variable captured from its constructor; the state generator returns a fresh, unaliased object; " +
+			"(default-checker) both default stream tool-call checkers answer 'no tool call' only at io.EOF or on a chunk with content, 'tool call' only on a chunk with tool calls — an empty leading chunk decides nothing; (loopvar) the tools node and the agent flows keep no loop variable or its address beyond an iteration (each unknown-tool handler call gets its own call's data); " +
 			"(tool-call-merge) streamed tool-call fragments are grouped by ranging over all index groups (C14.map-order).",
-		decided:    []string{"step-limit", "topology", "history", "same-runnable", "capture", "tool-call-merge"},
-		notDecided: []string{"alternation and history CONTENTS over model scripts", "tool-call detection in streamed output", "return-directly selection", "equality of Generate and Stream answers"},
+		decided:    []string{"step-limit", "topology", "history", "same-runnable", "capture", "default-checker", "loopvar", "tool-call-merge"},
+		notDecided: []string{"alternation and history CONTENTS over model scripts", "tool-call detection in streamed output by user-supplied checkers", "return-directly selection", "equality of Generate and Stream answers"},
 		run:        runC18,
 	})
 }
@@ -394,6 +395,17 @@ func runC18(w *World, r *Report) {
 				if b, isC := constBool(v); isC && b {
 					r.Check(hasTC, "C18.default-checker", construct, ret.Pos(), "'tool call' under len(msg.ToolCalls) > 0", "answers 'tool call' without having seen one")
 					return
+				}
+				if _, isC := constBool(v); !isC {
+					// a computed answer: it may be 'tool call' as well — justified only if it is the tool-call test itself
+					selfTC := false
+					if op, x, y, ok := asCmp(v); ok && (op == token.GTR || op == token.NEQ) && isConstN(y, 0) && isLenOf(x, func(a ssa.Value) bool { return isLoadOfField(a, fTC) }) {
+						selfTC = true
+					}
+					if !selfTC && !hasTC {
+						r.Fail("C18.default-checker", construct, ret.Pos(), "the checker's answer is computed from something other than the chunk's tool calls: it can answer 'tool call' on a chunk without one (the run loops back into the tools node with nothing to call) or miss one")
+						return
+					}
 				}
 				r.Check(eof || content, "C18.default-checker", construct, ret.Pos(), "'no tool call' at io.EOF or on a chunk with content",
 					"the checker can answer 'no tool call' on a chunk that has neither tool calls nor content (a role-only / keep-alive first chunk): the streamed run goes to END with the tool calls unexecuted while Generate on the same model output runs the tools")
